@@ -12,7 +12,7 @@ import re
 import vlib
 
 PROOFS = ["MgProof.C05.Lemmas", "MgProof.C05.TsInv", "MgProof.C05.TsStepSimple", "MgProof.C05.TsStepA",
-          "MgProof.C05.TsStepF", "MgProof.C05.TsStep", "MgProof.C05.SowrInv", "MgProof.C05.SowrStep", "MgProof.C05.RingInv",
+          "MgProof.C05.TsStepF", "MgProof.C05.TsStep", "MgProof.C05.ClientLegal", "MgProof.C05.TsLegal", "MgProof.C05.SowrInv", "MgProof.C05.SowrStep", "MgProof.C05.RingInv", "MgProof.C05.RingLegal",
           "MgProof.C05.Props"]
 GREP = ["MgModel/C05", "MgProof/C05", "MgModel/Common", "Drv/C05.lean"]
 REPO_SRCS = ["muggle/c/memory/threadsafe_memory_pool.c", "muggle/c/memory/sowr_memory_pool.c",
